@@ -609,6 +609,8 @@ def prop_sequence(desc, ctx):
         cl.append("has_measurement")
     if any(s["k"] == "postselect" for s in steps):
         cl.append("has_postselect")
+        if sim == "P" and desc["prep"]["kind"] == "superposition":
+            cl.append("P_postselected_superposition")
     ctx.case(desc, is_nontrivial(desc), cl)
 
     rng = progs.rng_of(desc.get("seed", 1) + 99)
@@ -804,7 +806,7 @@ def fock_sequence(draw, sim):
     if sim == "P":
         d = max(d, 2)
         nmax = draw(st.integers(1, 3))
-        prep = draw(progs.prep(d, nmax, kinds=("number", "number", "number", "superposition")))
+        prep = draw(progs.prep(d, nmax, kinds=("number", "number", "superposition")))
         n = progs.prep_max_photons(prep, d)
         cutoff = n + 1 + draw(st.sampled_from([0, 0, 1]))
     else:
@@ -838,6 +840,10 @@ def fock_sequence(draw, sim):
             choices += ["channel"] * 2
         if sim in ("PF", "P") and len(active) >= 2:
             choices += ["measure", "postselect"]
+            if sim == "P" and superposed and not lossy:
+                # post-selected superpositions (terms of different particle numbers are
+                # filtered inside PassiveState.state_vector): a region of its own
+                choices += ["postselect"] * 4
         kind = draw(st.sampled_from(choices))
         if kind == "gate":
             names = list(P_GATES if sim == "P" else PF_GATES)
